@@ -140,3 +140,18 @@ package skiplist
 //@   loop 0 invariant 0 <= level && level <= rank && len(path) == self.levels
 //@   loop 0 invariant forall x *tSkipNode :: len(x.fingers) == len(old(x.fingers))
 //@   loop 0 invariant forall x *tSkipNode, l Int :: 0 <= l && l < len(x.fingers) ==> x.fingers[l] == ite(l < level && x == path[l] && old(x.fingers)[l] == v, ite(len(old(v.fingers)) > l, old(v.fingers)[l], nil), old(x.fingers)[l])
+
+// The printed form: String walks the level-0 chain from the head. What is under contract
+// here is the walk itself (every node visited is the head or a live node, the index 0 is
+// in range, the walk advances); that this chain is exactly the live keys in ascending
+// order with forward pointers to larger keys only is the invariant (fingersok, nearest).
+// Formatting (fmt, bytes.Buffer) is not reasoned about; the node printer is trusted.
+//@ func (*tSkipNode) String
+//@   trusted
+//@   pure
+//@   requires self != nil
+
+//@ func (*tSkipList) String
+//@   opt overflow=off
+//@   requires skinv(self)
+//@   loop 0 invariant v == nil || isnode(self, v)
